@@ -135,7 +135,8 @@ def build_driver(spec, handlers, trace, state):
                        "owner": self.name, "device": el.vector.device.name,
                        "element": el.name, "vector": el.vector.name, "in_op": state.in_op, "op": state.op_index,
                        "stored": blobkey(stored), "new_value": blobkey(getattr(event, "new_value", None)),
-                       "old_value": blobkey(getattr(event, "old_value", None))}
+                       "old_value": blobkey(getattr(event, "old_value", None)),
+                       "vector_stored": {k: blobkey(e._value) for k, e in el.vector._elements.items()}}
                 trace.append(rec)
                 if h["veto"]:
                     event.prevent_default = True
@@ -357,6 +358,9 @@ def judge(ctx, case, op, kind, v, vec, el, ename, old, olds, native, returned, s
                     return viol("plain-write-handler-deferred", "plain Write handler ran after the operation returned")
                 if not eqv(t["stored"], old):
                     return viol("plain-write-handler-after-state-change", f"plain Write handler saw stored value {t['stored']!r}, old was {blobkey(old)!r}")
+                if t["owner"] == dname and any(not eqv(t["vector_stored"].get(a), o) for a, o in olds.items()):
+                    return viol("plain-write-handler-after-state-change:another-element-of-the-vector",
+                                f"plain Write handler saw the vector as {t['vector_stored']!r}, it was {({a: blobkey(o) for a, o in olds.items()})!r} before the write")
                 if any(p["seq"] < t["seq"] for p in pubs):
                     return viol("plain-write-handler-after-publication", "an update was published before a plain Write handler ran")
                 if h["veto"]:
@@ -370,6 +374,10 @@ def judge(ctx, case, op, kind, v, vec, el, ename, old, olds, native, returned, s
             return viol("vetoed-write-published", f"vetoed write published {len(pubs)} update(s)")
         if any(t["event"] == "Change" for t in mine):
             return viol("vetoed-write-raised-change", "vetoed write raised Change")
+        now = {a: getattr(vec, a)._value for a in olds}
+        if any(not eqv(now[a], olds[a]) for a in olds):
+            return viol("vetoed-write-changed-another-element-of-the-vector",
+                        f"vetoed write changed the vector {({a: blobkey(o) for a, o in olds.items()})!r} -> {({a: blobkey(o) for a, o in now.items()})!r}")
         return
     # ---- default update
     if v.get("rule") == "OneOfMany":
